@@ -40,6 +40,7 @@ fn gens(tier: Tier) -> Vec<Gen> {
         Gen { name: "direct", count: direct_cells(), exhaustive: true, run: run_direct },
         Gen { name: "connect-proxy", count: direct_cells(), exhaustive: true, run: run_connect_proxy },
         // https proxy: proxy certificate {good for pgood.test, wrong name, selfsigned} x origin cells (strided in quick)
+        Gen { name: "ip-literal-hosts", count: (2 * 2 * 2 * 2 * 2 * 2) as u64, exhaustive: true, run: run_ip_literal },
         Gen { name: "pinned-leaf", count: 2 * 2 * 2 * 2 * 3, exhaustive: true, run: run_pinned },
         Gen { name: "https-proxy", count: tier.pick(direct_cells(), direct_cells() * 3), exhaustive: tier == Tier::Thorough, run: run_https_proxy },
     ]
@@ -403,4 +404,54 @@ fn run_pinned(ctx: &mut Ctx, _rng: &mut Rng, index: u64) {
     let saw_u = saw_request(&srv.finish());
     judge(ctx, "sibling-or-original", false, false, &out_u, saw_u, &|| format!("direct, pinned leaf: cell {c:?} (request created before the root was added: defaults apply)"));
     ctx.nontrivial(format!("pinned{c:?}").as_bytes());
+}
+
+/// URLs whose host is an IP literal: the name check compares the address with the certificate's
+/// IP subjectAltNames (fixture `good`: 127.0.0.1 and ::1) and is not waived for them.
+/// Direct: the server listens on 127.0.0.1 (covered) or 127.0.0.2 (not covered). Through a
+/// CONNECT proxy: origin 127.0.0.1 (covered) or 192.0.2.77 (not covered; only the proxy is dialled).
+fn run_ip_literal(ctx: &mut Ctx, _rng: &mut Rng, index: u64) {
+    let mut i = index as usize;
+    let via_proxy = i % 2 == 1;
+    i /= 2;
+    let name_matches = i % 2 == 0;
+    i /= 2;
+    let names_off = i % 2 == 1;
+    i /= 2;
+    let certs_off = i % 2 == 1;
+    i /= 2;
+    let cert = ["good", "proxy"][i % 2]; // `proxy`: same CA, names only DNS:proxy.test
+    i /= 2;
+    let placement = ["session", "request"][i % 2];
+    let c = Cell { cert, name_matches, certs_off, names_off, root_added: true, placement, root: "ca" };
+    // the certificate `proxy` covers no address at all
+    let covered = name_matches && cert == "good";
+    let expected = truth(cert, covered, certs_off, names_off, true);
+    let run_one = |which: usize| -> (Outcome, bool) {
+        if via_proxy {
+            let srv = connect_proxy(cert);
+            let ps = ProxySettings::builder().https_proxy(Url::parse(&format!("http://127.0.0.1:{}", srv.port)).unwrap()).build();
+            let url = format!("https://{}/c14", if name_matches { "127.0.0.1" } else { "192.0.2.77" });
+            let built = build(&c, &url, Some(ps));
+            let rb = if which == 0 { built.target } else { built.unaffected };
+            let out = outcome(rb.text("c14 body").send());
+            (out, saw_request(&srv.finish()))
+        } else {
+            let ip = if name_matches { "127.0.0.1" } else { "127.0.0.2" };
+            let acc: SslAcceptor = acceptor(cert);
+            let srv: Server<ServerResult> = Server::spawn_on(ip, move |s: TcpStream| serve_tls(&acc, s, OK_RESPONSE));
+            let url = format!("https://{ip}:{}/c14", srv.port);
+            let built = build(&c, &url, None);
+            let rb = if which == 0 { built.target } else { built.unaffected };
+            let out = outcome(rb.text("c14 body").send());
+            (out, saw_request(&srv.finish()))
+        }
+    };
+    let descr = |what: &str| format!("{} with an IP-literal URL host ({}): cell {c:?} ({what})", if via_proxy { "CONNECT via loopback proxy" } else { "direct" }, if covered { "address covered by the certificate" } else { "address NOT covered by the certificate" });
+    let (out, saw) = run_one(0);
+    judge(ctx, "target", expected, covered || certs_off, &out, saw, &|| descr("target"));
+    let (out_u, saw_u) = run_one(1);
+    judge(ctx, "sibling-or-original", false, false, &out_u, saw_u, &|| descr("request created before the flags/root were set: defaults apply"));
+    ctx.count("path_ip_literal_host", 1);
+    ctx.nontrivial(format!("ipl{index}").as_bytes());
 }
